@@ -116,6 +116,45 @@ def gen(r, tier):
     return cases
 
 
+def ft_crosscheck(pair, res, r, tier):
+    """FlatTree.v (model of the dependency crate flat-tree 6.0.0) against the crate itself: the numbering the
+    theorems of C05 are stated in. Boundary and random arguments; iterator walks of random commands."""
+    vals = [0, 1, 2, 3, 4, 5, 6, 7, 8, 14, 15, 16, 30, 31, 32, 62, 63, 64, 126, 127, 2 ** 20 - 2, 2 ** 20 - 1, 2 ** 20,
+            2 ** 32 - 1, 2 ** 32, 2 ** 40 - 1, 2 ** 40, 2 ** 41 - 2, 2 ** 50 - 1, 2 ** 50 + 2]
+    vals += [r.randrange(2 ** r.choice([6, 12, 24, 41, 50])) for _ in range(60 if tier == "quick" else 3000)]
+    n = 0
+    for v in vals:
+        for fn in ("depth", "offset", "parent", "sibling", "left_span", "right_span"):
+            pair.raw("ft %s %d" % (fn, v)); n += 1
+        pair.raw("ft full_roots %d" % (2 * (v % 2 ** 45))); n += 1
+    for d in list(range(0, 12)) + [20, 31, 40]:
+        for o in [0, 1, 2, 3, 7, 8, 1000, 2 ** 15 - 1] + [r.randrange(2 ** 15) for _ in range(3)]:
+            pair.raw("ft index %d %d" % (d, o)); n += 1
+    walks = 150 if tier == "quick" else 6000
+    for _ in range(walks):
+        start = r.randrange(2 ** r.choice([4, 8, 16, 40]))
+        cmds, depth_budget = [], 14
+        for _ in range(r.randrange(1, 14)):
+            c = r.choice(["parent", "parent", "sibling", "left_child", "right_child", "next_tree", "is_right",
+                          "full_root", "seek", "contains"])
+            if c == "parent":
+                depth_budget -= 1
+                if depth_budget <= 0:
+                    continue
+            if c == "full_root":
+                # the crate's full_root is meant for an iterator at an even index (the crate returns false otherwise)
+                c = "full_root=%d" % (2 * r.randrange(2 ** r.choice([3, 6, 12, 30])))
+            elif c == "seek":
+                c = "seek=%d" % r.randrange(2 ** r.choice([4, 8, 16, 40]))
+            elif c == "contains":
+                c = "contains=%d" % r.randrange(2 ** r.choice([4, 8, 16, 41]))
+            cmds.append(c)
+        if cmds:
+            pair.raw("ft iter %d %s" % (start, " ".join(cmds))); n += 1
+    res.count("flat-tree-commands-compared", n)
+    res.disagreements.extend(pair.disagreements[:3]); pair.disagreements = []
+
+
 def main(tier, seed):
     res = Result("C05", tier, seed)
     res.gate = coq_gate("C05.v", clean=(tier == "thorough"))
@@ -123,6 +162,7 @@ def main(tier, seed):
     r = random.Random(seed)
     pair = Pair()
     try:
+        ft_crosscheck(pair, res, r, tier)
         for k, ops in enumerate(gen(r, tier)):
             v = run_case(pair, ops, res)
             res.add_case(tuple(op_text(o) for o in ops), True, sample=[op_text(o) for o in ops][:8] if k % 9 == 0 else None)
